@@ -1,5 +1,9 @@
 (* Theorems about the conductor model: C09 (registration protocol) and C10 (faults, close). *)
-Require Import V.Base.MachineInt V.Generated.GenConsts V.Model.Conductor V.Proofs.ConductorBase V.Proofs.ConductorInv.
+Require Import V.Base.MachineInt.
+Require Import V.Generated.GenConsts.
+Require Import V.Model.Conductor.
+Require Import V.Proofs.ConductorBase.
+Require Import V.Proofs.ConductorInv.
 From Coq Require Import ZifyBool.
 Open Scope Z_scope.
 
